@@ -9,7 +9,7 @@ from . import alpha, gamma
 from .alpha import DAV
 from .world import World
 
-HOME = "/user/calendars/"
+HOME = "/user/calendars/"        # (replaced per run by <principal>calendars/)
 NAMES = {"R": "lay", "P": "p#1", "S": "sub#b", "C": "c d", "H": "h%20h", "F": "f x", "G": "g+g"}
 
 
@@ -130,7 +130,11 @@ def property_hrefs(w, target):
 
 
 def run_layout(tree, frontend, prefix):
-    w = World(frontend=frontend, prefix=prefix)
+    global HOME
+    from .hrefcases import PRINCIPAL_FOR
+    principal = PRINCIPAL_FOR.get(prefix, "/user/")
+    HOME = principal + "calendars/"
+    w = World(frontend=frontend, prefix=prefix, principal=principal)
     recs = []
     try:
         made = build(w, tree)
@@ -244,7 +248,7 @@ def run_layout(tree, frontend, prefix):
                          "slash": slash, "badprops": [], "status": r.status, "frontend": frontend,
                          "prefix": prefix.strip("/") or "root"})
         # the principal and the home sets: hrefs in their property values
-        for target, ident in (("/user/", "principal"), (HOME, "home")):
+        for target, ident in ((principal, "principal"), (HOME, "home")):
             bad = sorted({p for (p, h, v) in property_hrefs(w, target) if v != "ok"})
             if bad:
                 recs.append({"tree": live, "at": "R", "depth": 0, "body": "prop", "got": ["R"], "slash": True,
